@@ -87,7 +87,8 @@ func newSlicer(vc *VC) *slicer {
 // Symbols reached only through a quantified assumption are "weak": they pull in
 // definitions and quantifier-free facts but no further quantified assumptions,
 // which keeps unrelated axioms and array-copy facts out of the query.
-func (s *slicer) slice(terms ...string) []bool {
+func (s *slicer) slice(upto int, terms ...string) []bool {
+	inScope := func(i int) bool { return i < upto || s.vc.aglobal[i] }
 	inc := make([]bool, len(s.vc.asserts))
 	rel := map[string]int{} // 1 = weak, 2 = strong
 	type item struct {
@@ -113,7 +114,7 @@ func (s *slicer) slice(terms ...string) []bool {
 			continue // superseded by a stronger entry
 		}
 		for _, i := range s.byDef[it.sym] {
-			if !inc[i] {
+			if !inc[i] && inScope(i) {
 				inc[i] = true
 				for _, z := range s.syms[i] {
 					add(z, it.strength)
@@ -121,7 +122,7 @@ func (s *slicer) slice(terms ...string) []bool {
 			}
 		}
 		for _, i := range s.bySym[it.sym] {
-			if inc[i] {
+			if inc[i] || !inScope(i) {
 				continue
 			}
 			if s.quant[i] {
